@@ -275,12 +275,16 @@ def evaluate__translate(self: XPathFunction, context: ta.ContextType = None) -> 
     arg: str = self.get_argument(context, default='', cls=str)
 
     map_string: str = self.get_argument(context, index=1, cls=str)
-    if map_string is None:
+    if map_string is None and self.parser.compatibility_mode:
+        map_string = ''  # XPath 1.0: the argument is converted with string(), '' for an empty node-set
+    elif map_string is None:
         message = "the 2nd argument of fn:translate() cannot be the empty sequence"
         raise self.error('XPTY0004', message)
 
     trans_string: str = self.get_argument(context, index=2, cls=str)
-    if trans_string is None:
+    if trans_string is None and self.parser.compatibility_mode:
+        trans_string = ''
+    elif trans_string is None:
         message = "the 3rd argument of fn:translate() cannot be the empty sequence"
         raise self.error('XPTY0004', message)
 
